@@ -185,6 +185,7 @@ func (f *Func) redefineInputs(opts ...Arg) (reflect.Type, error) {
 		Type:      structMarkerType,
 		Anonymous: true,
 	})
+	fieldNames := map[string]struct{}{}
 	for k, v := range state.InputSet {
 		log.Trace("input", "value", v)
 		if _, ok := inputsProvided[k]; ok {
@@ -193,8 +194,20 @@ func (f *Func) redefineInputs(opts ...Arg) (reflect.Type, error) {
 
 		switch v := v.(type) {
 		case *valueVertex:
+			// The input struct has one field per name. Two required inputs
+			// that share a name (with different types or subtypes) cannot
+			// both be represented, report that rather than letting
+			// reflect.StructOf panic on the duplicate field.
+			name := strings.ToUpper(v.Name)
+			if _, ok := fieldNames[name]; ok {
+				return nil, fmt.Errorf(
+					"redefine requires more than one input named %q, "+
+						"which can't be represented in the redefined function", v.Name)
+			}
+			fieldNames[name] = struct{}{}
+
 			sf = append(sf, reflect.StructField{
-				Name: strings.ToUpper(v.Name),
+				Name: name,
 				Type: v.Type,
 			})
 
